@@ -106,8 +106,38 @@ func init() {
 				}
 				// loop whose progress variable is itself a lisp number: for x := a; less(x, b); x = add(x, s)
 				lvalProgress := func(fs *ast.ForStmt) bool {
-					as, ok := fs.Post.(*ast.AssignStmt)
-					if !ok || len(as.Lhs) != 1 {
+					// the progress assignment: the post statement, or an assignment in the body to an
+					// *LVal local the condition reads (`for x := a; less(x, b); { …; x = next }`)
+					var as *ast.AssignStmt
+					if pa, ok := fs.Post.(*ast.AssignStmt); ok && len(pa.Lhs) == 1 {
+						as = pa
+					} else if fs.Post == nil && fs.Cond != nil {
+						ast.Inspect(fs.Body, func(m ast.Node) bool {
+							ba, ok := m.(*ast.AssignStmt)
+							if !ok || len(ba.Lhs) != 1 || as != nil {
+								return true
+							}
+							bo := identObj(info, ba.Lhs[0])
+							if bv, isVar := bo.(*types.Var); !isVar || lvalPtr == nil || !types.Identical(bv.Type(), lvalPtr) {
+								return true
+							}
+							// the condition hands the value itself to a comparison function (less(x, stop));
+							// a loop that follows a structure (`for v.Type == LQuote { v = v.Cells[0] }`) is not this
+							inCond := false
+							if cc, ok := ast.Unparen(fs.Cond).(*ast.CallExpr); ok {
+								for _, a := range cc.Args {
+									if identObj(info, a) == bo {
+										inCond = true
+									}
+								}
+							}
+							if inCond {
+								as = ba
+							}
+							return true
+						})
+					}
+					if as == nil {
 						return false
 					}
 					o := identObj(info, as.Lhs[0])
